@@ -24,6 +24,7 @@ var c08Styles = []fillStyle{
 	{"ascii-rev", "[", "]", "+", "=", ">", "-", true},
 	{"wide-filler", "[", "]", "+", "界", ">", "-", false},
 	{"wide-tip", "|", "|", "r", "=", "だ", ".", false},
+	{"tip3", "[", "]", "+", "=", ">>>", "-", false},
 }
 
 func (s fillStyle) build() mpb.BarFiller {
@@ -105,6 +106,9 @@ func c08Case(env *SeqEnv, st fillStyle, filler mpb.BarFiller, w int, total, cur,
 		tol := 0
 		if runewidth.StringWidth(st.filler) > 1 || runewidth.StringWidth(st.tip) > 1 {
 			tol = 1
+		}
+		if tw := runewidth.StringWidth(st.tip); tw > 2 {
+			tol = tw - 1 // a tip wider than the filled part overhangs it (draw_test.go enshrines this), never beyond the bar
 		}
 		big53 := int64(1) << 53
 		if total > big53 || cur > big53 {
